@@ -51,6 +51,16 @@ def make_crystal(ck, sg, st):
         assert all((u * 10 ** 6).denominator == 1 for r in Uallowed for u in r)
         sites.append({"label": label, "tsym": tsym, "x": x0, "occ": occ, "mode": mode, "U": Uallowed,
                       "uiso": Fraction(ck.rng.randrange(10, 400), 10000), "nstab": len(stab)})
+        if ck.rng.random() < 0.3:
+            # mixed site: another species at the SAME position with its own occupancy and ADPs
+            tsym2, el2 = ck.rng.choice([e for e in ELEMS if e[1] != el])
+            cnt[el2] = cnt.get(el2, 0) + 1
+            v2 = [Fraction(48 * ck.rng.randrange(-80, 81), 10 ** 6) for _ in range(6)]
+            d2 = Fraction(48 * 625, 10 ** 6)
+            Ur2 = [[v2[0] + d2, v2[3], v2[4]], [v2[3], v2[1] + d2, v2[5]], [v2[4], v2[5], v2[2] + d2]]
+            sites.append({"label": "%s%d" % (el2, cnt[el2]), "tsym": tsym2, "x": x0, "occ": 1 - occ if occ < 1 else Fraction(1, 2),
+                          "mode": mode, "U": group_average(sg, stab, Ur2),
+                          "uiso": Fraction(ck.rng.randrange(10, 400), 10000), "nstab": len(stab)})
     return {"cell": cell, "sites": sites}
 
 
@@ -83,7 +93,9 @@ def render(ck, sg, cr, sp):
         if sp.get("shuffle_ops"):
             ops = ops[:1] + ck.rng.sample(ops[1:], len(ops) - 1)
         sym += ["loop_", name] + ["'%s'" % xyz_text(o) for o in ops]
-    elif sp["sym"] == "hm":
+    if sp.get("plusnumber"):
+        sym += ["_symmetry_Int_Tables_number %d" % (sg.number % 1000), "_symmetry_space_group_name_H-M '%s'" % sg.pdb_name]
+    if sp["sym"] == "hm":
         sym += ["_symmetry_space_group_name_H-M '%s'" % sg.short_name]
     elif sp["sym"] == "hmfull":
         sym += ["_space_group_name_H-M_alt '%s'" % sg.pdb_name]
@@ -213,6 +225,8 @@ def spellings(ck, sg, unique_hm, unique_full, number_ok):
     sps.append(dict(base, B=True, shufloops=True))
     sps.append(dict(base, cartn=True, esd=True))
     sps.append(dict(base, adptype=False))
+    if 0 < sg.number % 1000 <= 230:
+        sps.append(dict(base, plusnumber=True))
     if unique_hm:
         sps.append(dict(base, sym="hm", shufcols=True))
     if unique_full:
